@@ -132,6 +132,51 @@ func genShapes(repo string) {
 		fmt.Fprintf(&b, "  (%s, %s)%s\n", leanStr(h), leanStrList(mops[h]), sep)
 	}
 	b.WriteString("]\n\n")
+	// the owner lookup of getVarCommonFuncParam (go-to-definition on a table-constructor key): its guard and whether it
+	// marks the name chain, and the cut of FindVarDefineInfo's retry loop — Props/C01 Retry.* is written after these
+	dpath := filepath.Join(repo, "langserver/check/check_lsp_define.go")
+	defFile, defErr := parser.ParseFile(fset, dpath, nil, 0)
+	if defErr != nil {
+		fail("parse %s: %v", dpath, defErr)
+	}
+	var ownerLookup []string
+	for _, d := range defFile.Decls {
+		fd, ok := d.(*ast.FuncDecl)
+		if !ok || fd.Body == nil {
+			continue
+		}
+		switch fd.Name.Name {
+		case "getVarCommonFuncParam":
+			ast.Inspect(fd.Body, func(n ast.Node) bool {
+				is, ok := n.(*ast.IfStmt)
+				if !ok || !strings.Contains(exprText(is.Cond), "len(varStruct.StrVec)==1") {
+					return true
+				}
+				ownerLookup = append(ownerLookup, "guard:"+exprText(is.Cond))
+				ast.Inspect(is.Body, func(m ast.Node) bool {
+					if as, ok := m.(*ast.AssignStmt); ok && len(as.Lhs) == 1 && exprText(as.Lhs[0]) == "varStruct.OwnerFlag" {
+						ownerLookup = append(ownerLookup, "sets:varStruct.OwnerFlag="+exprText(as.Rhs[0]))
+					}
+					return true
+				})
+				return false
+			})
+		case "FindVarDefineInfo":
+			ast.Inspect(fd.Body, func(n ast.Node) bool {
+				if as, ok := n.(*ast.AssignStmt); ok && len(as.Lhs) == 1 && exprText(as.Lhs[0]) == "varStruct.StrVec" {
+					ownerLookup = append(ownerLookup, "cut:"+exprText(as.Rhs[0]))
+				}
+				if as, ok := n.(*ast.AssignStmt); ok && len(as.Lhs) == 1 && exprText(as.Lhs[0]) == "subLen" {
+					ownerLookup = append(ownerLookup, "subLen:"+exprText(as.Rhs[0]))
+				}
+				return true
+			})
+		}
+	}
+	if len(ownerLookup) == 0 {
+		fail("check_lsp_define.go: owner lookup / retry loop not found")
+	}
+	b.WriteString("/-- owner lookup of getVarCommonFuncParam and the cut of FindVarDefineInfo's retry loop -/\ndef ownerLookup : List String := " + leanStrList(ownerLookup) + "\n\n")
 	// annotation keywords
 	kpath := filepath.Join(repo, "langserver/check/annotation/annotatelexer/annotate_token.go")
 	kf, err := parser.ParseFile(fset, kpath, nil, 0)
